@@ -412,7 +412,7 @@ pub fn subchecks(tier: Tier) -> Vec<SubCheck> {
     vec![generated(
         "declare_reset_contract",
         "histories over one generator: declarations (exact / off by one / arbitrary / MAX / MAX+1 / u64::MAX / bytes fed so far / repeated, both APIs) at arbitrary points, updates in all forms, finalisations, resets; up to three lives whose inputs are word programs (elimination, last-hash activation, full first context) and, through the zero-feeding hook, runs of up to 2^38 zero bytes; oracle = executable model of the contract (accepted / specific error, refused calls change nothing incl. behaviour on a continuation, finalisation = size mismatch or the hash of the bytes fed since the last reset by reference model B and by a fresh undeclared generator, warning query) + a fresh generator in lock-step after every reset; non-trivial = a reset after elimination / last-hash activation / declaration, or a declaration placed mid-stream; distinct by case",
-        tier.pick(60_000, 800_000),
+        tier.pick(400_000, 4_000_000),
         move || strategy(wt_seed(), tier),
         eval,
     )]
